@@ -507,4 +507,72 @@ theorem wire_readyTransparent : ReadyTransparent (wire (α := α)) (fun _ => Tru
 theorem mapElem_readyTransparent {β : Type} (f : α → β) : ReadyTransparent (mapElem f) (fun _ => True) :=
   fun _ _ _ _ => rfl
 
+/-! ### Offer measures and idle-monotonicity (inputs of `OfferMeasure.comp`) -/
+
+theorem upConv_offer (r : Nat) (hr : 0 < r) (z : α) (p0 : π) :
+    OfferMeasure (upConv r z p0) (upInv r) (upMu r) r where
+  inv_step := upConv_inv_step r hr z p0
+  bound s _ := by unfold upMu; split <;> omega
+  dec s i hs hv := by
+    obtain ⟨iv, it, ir⟩ := i
+    simp only at hv; subst hv
+    unfold upInv at hs
+    unfold upMu
+    cases hst : s.strobe with
+    | true => left; simp [upConv, hst]
+    | false =>
+      right
+      simp only [upConv, Elem.step, hst]
+      by_cases hd : (s.demux + 1 == r || it.last) = true
+      · simp [hd]; omega
+      · simp only [Bool.not_eq_true] at hd
+        cases ir <;> simp [hd] <;> omega
+
+theorem upConv_idleMono (r : Nat) (z : α) (p0 : π) : IdleMono (upConv r z p0) (upInv r) (upMu r) := by
+  intro s i hs hrd
+  obtain ⟨iv, it, ir⟩ := i
+  simp only at hrd; subst hrd
+  unfold upInv at hs
+  unfold upMu
+  cases hst : s.strobe with
+  | true => left; simp [upConv, Elem.delNow, Elem.out, hst]
+  | false =>
+    right
+    simp only [upConv, Elem.step, hst]
+    cases iv with
+    | false => simp
+    | true =>
+      by_cases hd : (s.demux + 1 == r || it.last) = true
+      · simp [hd]
+      · simp only [Bool.not_eq_true] at hd
+        simp [hd]; omega
+
+theorem pipeReady_idleMono (z : Tok α) : IdleMono (pipeReady z) prInv (fun _ => 0) :=
+  fun _ _ _ _ => Or.inr (Nat.le_refl _)
+
+theorem pipeValid_idleMono (z : Tok α) : IdleMono (pipeValid z) (fun _ => True) (fun s => if s.valid then 0 else 1) := by
+  intro s i _ hrd
+  obtain ⟨sv, st⟩ := s
+  obtain ⟨iv, it, ir⟩ := i
+  simp only at hrd; subst hrd
+  cases sv <;> cases iv <;> simp [pipeValid, Elem.step, Elem.delNow, Elem.out]
+
+theorem syncFifoBuffered_offer (depth : Nat) (hd : 1 ≤ depth) (z : Tok α) :
+    OfferMeasure (syncFifoBuffered depth z) (fbInv depth)
+      (fun s => if s.readable then 0 else if s.q.isEmpty then 2 else 1) 2 where
+  inv_step := syncFifoBuffered_inv_step depth hd z
+  bound s _ := by split <;> (try split) <;> omega
+  dec s i _ hv := by
+    obtain ⟨iv, it, ir⟩ := i
+    obtain ⟨q, rd, dout⟩ := s
+    simp only at hv; subst hv
+    have h0 : ¬ (0 = depth) := by omega
+    cases rd with
+    | true => left; simp [syncFifoBuffered]
+    | false =>
+      right
+      cases q with
+      | nil => cases ir <;> simp [syncFifoBuffered, Elem.step, h0]
+      | cons x xs => cases ir <;> simp [syncFifoBuffered, Elem.step]
+
 end Litex.Stream
